@@ -48,7 +48,9 @@ CLAIMS = {
                      "its finish gate open (C06_ready_run, C06_finish_run, C06_finish_next); after check_state(WORKING) no component-free automatic task is "
                      "READY, at every recorded working step (and at absence steps when automatic tasks are performed there) (C06_auto_run); idle-worker clause for tasks without facility: a worker still FREE and unassigned after "
                      "the allocation pass cannot be added to any READY/WORKING non-automatic task it is skilled and targeted for (C06_idle, C06_idle_step, "
-                     "C06_idle_run). The worker-facility-pair form of the idle clause is NOT a theorem (search only).",
+                     "C06_idle_run); the worker-facility-pair form for facility tasks of single-task components: a FREE unassigned worker and a FREE facility of "
+                     "the workplace where the component sits after the pass cannot be added as a pair (C06_idle_pair, C06_idle_pair_step, C06_idle_pair_run; "
+                     "the single-task hypothesis is necessary: machine-checked counterexample with two tasks on one component).",
                 design="6 C06", technique="Lean 4 proof (post-conditions of the update block, fold argument over the allocation pass: refusals persist) + phase-level correspondence"),
     "C09": dict(text="Proved for the model: with both initialisation flags the entered state, hence the whole result, does not depend on the previous "
                      "state of the project at all — re-simulation, any earlier history of operations, or a fresh object give the same result "
@@ -61,13 +63,15 @@ CLAIMS = {
                      "model's canonical order, so C09_simulate_order covers every network), witnesses replayed on every run. The address/hash/process clause is inherently about the runtime and is validated by "
                      "the stream (permuted task/component hashes, rebuilt objects, fresh processes with different PYTHONHASHSEED) — partial by nature.",
                 design="6 C09", technique="Lean 4 proof that initialisation overwrites every dynamic field (determinism) + real runs under permuted set-iteration orders and hash seeds"),
-    "C15": dict(text="Proved for the model as C15_partial: pausing at ANY k <= M and resuming with both initialisation flags off gives exactly the state of "
-                     "the uninterrupted run (whole-state equality: logs, costs, time, status, live state), for models in which no task has both a "
-                     "finish-gated (FF/SF) predecessor and an FS successor (GateOK; covers all FS/SS models and FF/SF models without that pattern), with "
-                     "work >= 0 and progress <= 1; rests on idempotence of the update block (C15_update_idem) and fuel/status irrelevance. Outside GateOK "
-                     "the wave PERT can read a stale value (machine-checked example) and the statement is validated by search only. The JSON variant is "
-                     "covered by the stream (write/read/resume) and C16.",
-                design="6 C15", technique="Lean 4 proof (idempotence of the update block, loop congruences) + pause/resume histories on the real code at every k"),
+    "C15": dict(text="Proved for the model (C15_general): pausing at ANY k <= M and resuming with both initialisation flags off gives exactly the state of "
+                     "the uninterrupted run (whole-state equality: logs, costs, time, status, live state) for EVERY model with in-range links and an "
+                     "acyclic link graph (FwdRanked; decidable form TopoOK), any link kinds, any start state and parameters. Rests on idempotence of the "
+                     "update block: check_state(FINISHED) is a fixpoint, component/removal/ready checks are idempotent, and update_PERT_data is idempotent "
+                     "at every state of an acyclic model although it can read a stale eft (machine-checked example): the relaxation sequence is "
+                     "value-independent and every last write reads final values (C15_pert_idem_general). C15_partial (GateOK) covers the remaining "
+                     "cyclic-link models without the FF/SF+FS pattern; cyclic link graphs are outside the property (PERT does not terminate there in the "
+                     "code). The JSON variant is covered by the stream (write/read/resume) and C16.",
+                design="6 C15", technique="Lean 4 proof (idempotence of the update block incl. the wave PERT on acyclic graphs, loop congruences) + pause/resume histories on the real code at every k"),
     "C02": dict(text="Proved for the model: perform subtracts exactly contrib from a WORKING task on an active step and leaves every other task alone (C02_perform); "
                      "under the allocation invariant contrib is the documented plain sum (divisor 1; an absent or unskilled member contributes 0: C02_contrib, "
                      "C02_contrib_zero); no other phase changes remaining work except check_finished clamping finished tasks to 0 (C02_frame, C02_chkFinished_rem); "
@@ -133,7 +137,9 @@ CLAIMS = {
                      "key (C11_tasks/workers/facilities/workplaces, uniqueness in the *_generic theorems). No inversion: a worker newly given to a "
                      "later task of the sorted list that is skilled and targeted for an earlier non-automatic, non-facility task could not be added "
                      "to that earlier task at the end of the pass (C11_no_inversion, C11_no_inversion_step; 'earlier' = priority at least as high, "
-                     "C11_before_key). The pair form for facility tasks is not claimed.",
+                     "C11_before_key). Pair form for facility tasks of single-task components: a worker (or facility) newly given to a later task cannot, with a "
+                     "still-free facility (worker) of the earlier task's workplace, be added to the earlier task (C11_no_inversion_pair, "
+                     "C11_no_inversion_pair_step, C11_no_inversion_fac).",
                 design="6 C11", technique="Lean 4 proof that the model's sort is the stable sort by the documented key + pure-function correspondence on arbitrary lists"),
     "C12": dict(text="Proved for the model: for every acyclic FS network, any time, any remaining-work vector ≥ 0 and ANY stale previous values, "
                      "the wave-front update returns the unique solution of the critical-path equations (C12, C12_unique, C12_eq_spec), slack ≥ 0 "
